@@ -538,8 +538,12 @@ class Sim:
                     obj2 = fn2()
             except Exception:  # noqa
                 obj2 = obj
-            self.stats["identity_hits"] += 1
-            if obj2 is not obj:
+            # only a substitution that stayed symbolic is an interned term; one that was carried out
+            # produced a new array, and arrays are compared by identity
+            symbolic = isinstance(obj, f.terms.Subs) and isinstance(obj2, f.terms.Subs)
+            if symbolic:
+                self.stats["identity_hits"] += 1
+            if symbolic and obj2 is not obj:
                 raise Violation(
                     "I2-construct-not-identical",
                     "a substitution into two inputs %s under %s gave two live objects depending on the order in which the keywords are written (%r vs %r)"
